@@ -17,8 +17,9 @@ CONFIG = {
                   "kept 12 s (thorough 25-65 s) next to the stalled peers, then its open and a new logical connection must echo "
                   "(control run without stalled peers on failure).",
     "technique": "Lean 4 proof (scheduler model, all schedules) + regenerated facts + e2e correspondence with stalled raw peers",
-    "components": [{"name": "stall", "timeout": {"quick": 300, "thorough": 1200}}],
-    "rule": "stall: hold scenarios (stalled first / well-behaved first); endpoint kinds tcp, tcp+tls, ws, udp (thorough: + StartTLS, wss) x stall points x m in {1,2} (thorough: 5); "
+    "components": [{"name": "stall", "timeout": {"quick": 300, "thorough": 1200}},
+                   {"name": "dnsfront", "timeout": {"quick": 60, "thorough": 120}}],
+    "rule": "dnsfront: commands.ComposeRequest on messages with 0..4 questions of name lengths 0..5 (and long single names): faults exactly where the model says, never on a one-question message; stall: hold scenarios (stalled first / well-behaved first); endpoint kinds tcp, tcp+tls, ws, udp (thorough: + StartTLS, wss) x stall points x m in {1,2} (thorough: 5); "
             "non-trivial = well-behaved client served; distinct = distinct op line",
     "trusted_base": COMMON_TB + ["net/http per-request goroutines, kcp-go listener, Go scheduler"],
     "assumptions": ["served = first echo within the deadline"],
